@@ -27,6 +27,7 @@ ASSUMPTIONS = [
     "no userinfo in the universe (the hierarchy is stated on scheme/port/host/path/query/fragment; userinfo stems come last)",
     "with suffix_aware=True 'subdomain of u' is claimed only when u's host contains v's whole public suffix (the statement's co.uk example)",
     "port equality is literal (absent vs explicit); ports 80/443 are not in the universe",
+    "host labels are compared in their written case for the label-wise stems and lower-cased for the suffix-aware ones (C12 states that only the latter lower-case the host)",
     "string-prefix of serialized LRUs is claimed when neither u nor v has an empty path segment (an empty 'p:' stem is 'aside' only for the list form)",
 ]
 
@@ -42,7 +43,7 @@ def psl():
 
 def parts(url):
     r = urlref.split(url)
-    labels = r["host"].lower().split(".")
+    labels = r["host"].split(".")      # raw case: C12 states that only the suffix-aware stems lower-case the host
     segs = [s for s in r["path"].split("/")[1:]] if r["path"] else []
     return dict(scheme=r["scheme"].lower(), port=r["port"], labels=labels, segs=segs,
                 nsegs=[s for s in segs if s != ""], query=r["query"] or None, fragment=r["fragment"] or None)
@@ -51,6 +52,7 @@ def parts(url):
 def host_units(labels, suffix_aware):
     """host as the sequence of hierarchical units, most significant first"""
     if suffix_aware:
+        labels = [l.lower() for l in labels]
         n = psl().suffix_length(labels)
         if n:
             n = min(n, len(labels))
